@@ -58,7 +58,7 @@ func (g *respGen) body() M {
 		return M{"text/plain; charset=\"utf-8\"": M{"schema": Prim("string", "")}}
 	case 11:
 		// two JSON-flavoured media types (RFC 7807 style)
-		return M{"application/json": M{"schema": Ref("schemas", "Err")}, "application/problem+json": M{"schema": Ref("schemas", "Err")}}
+		return M{"application/json": M{"schema": Ref("schemas", "Err")}, "application/problem+json": M{"schema": Ref("schemas", "Item")}}
 	case 9:
 		// two media types for one response: JSON wins
 		return M{"application/json": M{"schema": Ref("schemas", "Err")}, "application/octet-stream": M{"schema": M{"type": "string", "format": "binary"}}}
@@ -107,6 +107,20 @@ func ResponseCases(seed int64, n int) []Case {
 		d.Op("/second", "get", M{"responses": M{"200": M{"description": "ok"}, order[1]: Ref("responses", "Problem")}})
 		id := fmt.Sprintf("resp-conflict-default-and-numbered-%d", i)
 		out = append(out, Case{ID: id, Family: "response", Spec: d.Root, Flags: Flags{Client: true}, Safe: false, Label: map[string]string{"set": id}})
+	}
+	{
+		// one shared response under different statuses of several operations
+		// (in path order: the first differs from the later ones, and the other way round)
+		for vi, sts := range [][]string{{"410", "404", "404"}, {"404", "404", "410"}, {"404", "410", "404", "404"}} {
+			d := NewDoc("shared-status")
+			d.Comp("schemas", "Err", Obj([]string{"message"}, M{"message": Prim("string", "")}))
+			d.Comp("responses", "Missing", Resp("missing", Ref("schemas", "Err")))
+			for oi, st := range sts {
+				d.Op("/p"+letters(oi), "get", M{"responses": M{"200": M{"description": "ok"}, st: Ref("responses", "Missing"), "409": Resp("c", Ref("schemas", "Err"))}})
+			}
+			id := fmt.Sprintf("resp-shared-status-%d", vi)
+			out = append(out, Case{ID: id, Family: "response", Spec: d.Root, Flags: Flags{Client: true}, Safe: true, Label: map[string]string{"set": id}})
+		}
 	}
 	for i := 0; i < n; i++ {
 		d := NewDoc("responses")
